@@ -134,6 +134,7 @@ type verifScript struct {
 	werr     []error
 	wserved  []bool
 	finished bool
+	exited   chan struct{} // closed when the handler returns or panics
 }
 
 func (s *verifScript) at(i int) {
@@ -151,6 +152,7 @@ func (s *verifScript) at(i int) {
 }
 
 func (s *verifScript) ServeHTTP(w http.ResponseWriter, r *http.Request) {
+	defer close(s.exited)
 	for i, op := range s.ops {
 		s.at(i)
 		switch op.kind {
@@ -227,7 +229,7 @@ func Verif_C02_timeout() {
 			firstKind = verifChoose("op", 4)
 		}
 	}
-	s := &verifScript{fireAt: -1}
+	s := &verifScript{fireAt: -1, exited: make(chan struct{})}
 	for i := 0; i < nOps; i++ {
 		kind := firstKind
 		if i > 0 {
@@ -253,7 +255,7 @@ func Verif_C02_timeout() {
 	// deadline: never, or at position 0..nOps; DeadlineExceeded or Canceled
 	f := verifChoose("fireAt", nOps+2)
 	if f > 0 {
-		s.fireAt = f - 1
+		s.fireAt = nOps - (f - 1) // late positions first: their immediate-reaction schedules are the ones the native twin can reproduce
 		s.fireErr = context.DeadlineExceeded
 		if verifBool("clientCancel") {
 			s.fireErr = context.Canceled
@@ -286,7 +288,8 @@ func Verif_C02_timeout() {
 	}
 	_, panicked := verifExpectPanic(func() { h.ServeHTTP(conn, req) })
 	atomic.StoreInt32(&s.served, 1)
-	verifYield() // the handler may still be running: let it finish against the timed-out writer
+	<-s.exited   // the handler may still be running: let it finish against the timed-out writer
+	verifYield() // ... and its goroutine wind up
 
 	refStatus, refBody, refHV, refHasHV, hvComparable := s.reference(withRecover)
 	handlerPanics := verifHasPanic(s.ops) && !withRecover
@@ -355,7 +358,7 @@ func Verif_C02_timeout() {
 // H02a': the two ways around the timeout machinery: a non-positive duration
 // and a websocket upgrade hand the request to the handler itself.
 func Verif_C02_timeout_bypass() {
-	s := &verifScript{fireAt: -1}
+	s := &verifScript{fireAt: -1, exited: make(chan struct{})}
 	code := verifInt("code")
 	verifAssume(code >= 100)
 	verifAssume(code <= 599)
